@@ -39,6 +39,8 @@ CONSTANTS W,            \* workers
           MaxTries, MaxConc, RerunSet, StopSet,
           MaxBounce,    \* exploration bound: back-offs per worker
           DryRun,       \* dry run: nothing is executed or cleaned
+          OwnUnexplored, \* the cleanup of a node is also postponed while THIS worker may still unroll a flat test (fix 'postpone the
+                         \* cleanup ... own copy'); FALSE = the guard looks only at flat tests nobody has unrolled yet
           Prio, UsePrio,\* static last tie-break of the pick order (prefix priority); only fixed for eagerly parsed graphs
           Lazy          \* TRUE: start from flat tests and expand on demand; FALSE: everything parsed up front
 
@@ -76,13 +78,17 @@ SeqSet(q) == IF q = <<>> THEN {} ELSE {Head(q)} \cup SeqSet(Tail(q))
 
 \* ---- readiness, occupation, pick order (TestNode.is_setup_ready / is_cleanup_ready / is_occupied / pick_*)
 Relevant(t, w) == t \in Flat \/ exists[t][w]
-SetupReady(t, w) == \A p \in Setup[t] : Relevant(p, w) => ds[t][p][w] > 0
-CleanupReady(t, w) == \A c \in Children[t] : Relevant(c, w) => dc[t][c][w] > 0
+\* the edge between a flat test and its composite copy exists for a worker only once that worker unrolled the flat test
+\* (the copy itself may exist earlier, parsed as setup of another test)
+PRel(p, w) == IF p \in FlatLeaves THEN unrolled[p][w] ELSE Relevant(p, w)
+CRel(t, c, w) == IF t \in FlatLeaves THEN unrolled[t][w] /\ Relevant(c, w) ELSE Relevant(c, w)
+SetupReady(t, w) == \A p \in Setup[t] : PRel(p, w) => ds[t][p][w] > 0
+CleanupReady(t, w) == \A c \in Children[t] : CRel(t, c, w) => dc[t][c][w] > 0
 Occupied(t, w) == t \notin Flat /\ Cardinality({v \in W : started[t][v]}) >= MaxConc
 FlatFlag(t) == IF t \in Flat THEN 0 ELSE 1
 Less(k1, k2) == k1[1] < k2[1] \/ (k1[1] = k2[1] /\ k1[2] < k2[2])
-ParentCands(t, w) == {p \in Setup[t] : Relevant(p, w) /\ ds[t][p][w] = 0}
-ChildCands(t, w) == {c \in Children[t] : Relevant(c, w) /\ dc[t][c][w] = 0}
+ParentCands(t, w) == {p \in Setup[t] : PRel(p, w) /\ ds[t][p][w] = 0}
+ChildCands(t, w) == {c \in Children[t] : CRel(t, c, w) /\ dc[t][c][w] = 0}
 \* flat nodes first, then the least picked; the last tie-break (prefix priority) depends on the parse order and is left open
 ByPrio(S) == IF UsePrio THEN {x \in S : \A y \in S : Prio[x] <= Prio[y]} ELSE S
 BestParents(t, w) == LET C == ParentCands(t, w)
@@ -322,15 +328,18 @@ PostDownPick(w, c) == /\ pc[w] = "post" /\ Free(w) /\ dir[w] = "down" /\ ~Cleanu
                       /\ pc' = [pc EXCEPT ![w] = "loop"] /\ turn' = w
                       /\ UNCHANGED <<dir, snap, pbc, ds, dc, started, finished, results, pool, exists, unrolled, rerunOff, asleep, nb, bad, preFailed>>
 
+\* a node that is cleanup ready only because dependants are not parsed yet must not be cleaned up: nobody has unrolled some
+\* flat test (snapshot of this loop round), or this worker may still unroll one and thereby add children to its own copy
+MustPostpone(w) == snap[w] \/ (OwnUnexplored /\ \E f \in FlatLeaves : ~unrolled[f][w] /\ ShouldParse(f, w))
 Postpone(w) == /\ pc[w] = "post" /\ Free(w) /\ dir[w] = "down" /\ CleanupReady(Last(path[w]), w)
-               /\ Last(path[w]) \notin Flat /\ snap[w]
+               /\ Last(path[w]) \notin Flat /\ MustPostpone(w)
                /\ On(w, "postpone") /\ Arg("x", Last(path[w])) /\ Adv
                /\ path' = [path EXCEPT ![w] = <<Root>>]
                /\ pc' = [pc EXCEPT ![w] = "loop"] /\ turn' = w
                /\ UNCHANGED <<dir, snap, pbs, pbc, ds, dc, started, finished, results, pool, exists, unrolled, rerunOff, asleep, nb, bad, preFailed>>
 
 Reverse(w) == /\ pc[w] = "post" /\ Free(w) /\ dir[w] = "down" /\ CleanupReady(Last(path[w]), w)
-              /\ ~(Last(path[w]) \notin Flat /\ snap[w])
+              /\ ~(Last(path[w]) \notin Flat /\ MustPostpone(w))
               /\ LET nx == Last(path[w])
                      u == ~Occupied(nx, w) /\ WillUnset(nx, w) IN
                    /\ On(w, "reverse") /\ Arg("x", nx) /\ Arg("u", IF u THEN 1 ELSE 0) /\ Adv
